@@ -21,7 +21,9 @@ var patterns = []string{"literal", "const", "let", "let-reassigned-before", "let
 	"let-shadowing-block", "reassigned-in-loop-after", "reassigned-in-for-after", "catch-handler-not-run", "closure-sees-later-value",
 	// the access sits INSIDE one alternative of a construct whose other alternative (earlier or
 	// later in the source, not executed) assigns the index
-	"match-later-arm", "match-earlier-arm", "else-after-then-assign", "then-before-else-assign", "elseif-middle"}
+	"match-later-arm", "match-earlier-arm", "else-after-then-assign", "then-before-else-assign", "elseif-middle",
+	// index expressions that go through a narrowing cast (the value wraps) or a widening one
+	"cast-wrap-u8", "cast-wrap-i8", "cast-widen"}
 var accesses = []string{"read", "write", "compound-write", "read-twice", "borrow-read", "field-read", "field-write", "optional-init", "arg", "return"}
 
 type spec struct {
@@ -140,6 +142,20 @@ func build(s spec, sfx string) (*fl.Program, bool) {
 		// the handler of a catch that is not taken assigns the index
 		p.Funcs = append(p.Funcs, &fl.Func{Name: "okr" + sfx, Ret: fl.TResult{Err: fl.Str, Ok: fl.I32}, Body: []fl.Stmt{&fl.Return{X: i32(1)}}})
 		pre = []fl.Stmt{leti(k), &fl.Let{Name: "cv", Init: &fl.Catch{X: fl.C("okr" + sfx), ErrName: "e", Handler: []fl.Stmt{&fl.Assign{LHS: fl.V("i"), RHS: i32(other)}}, Fallback: i32(0)}}, fl.P(fl.V("cv"))}
+	case "cast-wrap-u8":
+		// (k + 256) as u8 is k for k >= 0; negative k is left to the other patterns
+		if s.k < 0 {
+			return nil, false
+		}
+		pre = []fl.Stmt{&fl.Let{Name: "c", T: fl.I32, Init: i32(s.k + 256), Const: true}}
+		idx = &fl.Cast{X: &fl.Cast{X: fl.V("c"), T: fl.U8}, T: fl.I32}
+	case "cast-wrap-i8":
+		// (k + 256) as i8 is k for -128 <= k < 128
+		pre = []fl.Stmt{&fl.Let{Name: "c", T: fl.I32, Init: i32(s.k + 256), Const: true}}
+		idx = &fl.Cast{X: &fl.Cast{X: fl.V("c"), T: fl.I8}, T: fl.I32}
+	case "cast-widen":
+		pre = []fl.Stmt{&fl.Let{Name: "c", T: fl.I8, Init: fl.L(fl.I8, s.k), Const: true}}
+		idx = &fl.Cast{X: fl.V("c"), T: fl.I32}
 	case "match-later-arm":
 		pre = []fl.Stmt{leti(k), &fl.Let{Name: "m", T: fl.I32, Init: i32(2)}}
 		wrapAcc = func(acc []fl.Stmt) []fl.Stmt {
@@ -250,7 +266,7 @@ func Bases(quick bool) []*prog.Case {
 	var out []*prog.Case
 	seq := 900000
 	for _, pat := range []string{"literal", "const", "let", "let-reassigned-before", "let-reassigned-after", "if-one-branch-taken", "if-both-branches", "compound-add", "incdec", "neg-div", "neg-rem",
-		"match-arm", "match-later-arm", "match-earlier-arm", "else-after-then-assign", "elseif-middle"} {
+		"match-arm", "match-later-arm", "match-earlier-arm", "else-after-then-assign", "elseif-middle", "cast-wrap-u8", "cast-wrap-i8"} {
 		for _, acc := range []string{"read", "write"} {
 			for _, k := range []int64{-1, 0, 2} {
 				s := spec{pat, acc, 3, k, "i32"}
